@@ -285,7 +285,8 @@ def branches (d : Doc2 Json) (excl : List String) : List String :=
     (if docBody d && !docSimple d then ["frag.docBody.only"] else []) ++
     (if docBodyBack d && !docSimpleBack d then ["frag.docBodyBack.only"] else []) ++
     (if docInputsBack d then ["frag.docInputsBack"] else []) ++
-    (if docInputsBack d && !docBodyBack d then ["frag.docInputsBack.only"] else [])
+    (if docInputsBack d && !docBodyBack d then ["frag.docInputsBack.only"] else []) ++
+    (if docInputsBack d && docNamed d then ["frag.fromV3Full"] else [])
   raw.eraseDups
 
 /-- the kinds of value the extension `x-nullable` takes anywhere in the document (only the boolean `true` is nullability) -/
